@@ -76,7 +76,9 @@ class FM(Space):
 
     def cases(self):
         for n in range(0, self.maxn + 1):
-            full = 1 if self.quick else 2   # positions that range over the whole line alphabet; the rest use one line per kind
+            # positions that range over the whole line alphabet; the rest use one line per kind (thorough: two full positions up to
+            # two lines, one for three lines -- the complete 27^2 x 9 product took over 50 minutes)
+            full = 1 if (self.quick or n >= 3) else 2
             pools = [range(len(FM_LINES))] * min(n, full) + [self.line_reps] * max(0, n - full)
             for ls in itertools.product(*pools):
                 for crlf in (False, True):
